@@ -153,10 +153,21 @@ struct LinuxProcessMemory {
 impl LinuxProcessMemory {
     fn next_position(&mut self, params: &MemoryParams) {
         // Update current line to point to next chunk if possible.
+        //
+        // Chunks are described with a size rounded to the page size (see
+        // `CurrentRegion::region_description`), so the cursor must advance by this
+        // same rounded size, otherwise chunks overlap or leave gaps.
+        let chunk_params = MemoryParams {
+            max_fetched_region_size: params.max_fetched_region_size,
+            memory_chunk_size: params
+                .memory_chunk_size
+                .map(|size| round_to_page_size(size, self.page_size)),
+            can_refetch_regions: params.can_refetch_regions,
+        };
         if self
             .current_region
             .as_mut()
-            .is_some_and(|line| line.update_to_next_chunk(params))
+            .is_some_and(|line| line.update_to_next_chunk(&chunk_params))
         {
             return;
         }
